@@ -550,8 +550,52 @@ func projectStruct(ns, os *ref.StructT, v *ref.StructV, depth int, ps *projStats
 	return out
 }
 
+// distinctUnderOld reports whether all map keys and set elements inside v are
+// still pairwise different when seen with the old schema.
+func distinctUnderOld(t *ref.Type, v ref.V) bool {
+	if v == nil {
+		return true
+	}
+	switch t.Kind {
+	case ref.List, ref.Set:
+		x := v.(*ref.ListV)
+		for i, e := range x.E {
+			if !distinctUnderOld(t.Elem, e) {
+				return false
+			}
+			if t.Kind == ref.Set {
+				for j := 0; j < i; j++ {
+					if ref.Equal(ref.Normalise(t.Elem, x.E[j]), ref.Normalise(t.Elem, e)) {
+						return false
+					}
+				}
+			}
+		}
+	case ref.Map:
+		x := v.(*ref.MapV)
+		for i := range x.K {
+			if !distinctUnderOld(t.Key, x.K[i]) || !distinctUnderOld(t.Elem, x.E[i]) {
+				return false
+			}
+			for j := 0; j < i; j++ {
+				if ref.Equal(ref.Normalise(t.Key, x.K[j]), ref.Normalise(t.Key, x.K[i])) {
+					return false
+				}
+			}
+		}
+	case ref.Struct:
+		x := v.(*ref.StructV)
+		for id, fv := range x.F {
+			if f := t.Struct.Field(id); f != nil && !distinctUnderOld(f.Type, fv) {
+				return false
+			}
+		}
+	}
+	return true
+}
+
 // writable reports whether a value of the old schema is one the old code can
-// write: no union without a member, no set with two equal elements (a
+// write: no union without a member, no set with two equal elements, no map with two equal keys (a
 // projection can produce both; neither is "data of the older version").
 func writable(t *ref.Type, v ref.V) bool {
 	if v == nil {
@@ -577,6 +621,12 @@ func writable(t *ref.Type, v ref.V) bool {
 		for i := range x.K {
 			if !writable(t.Key, x.K[i]) || !writable(t.Elem, x.E[i]) {
 				return false
+			}
+			// two keys that differ only in fields old lacks are one key to old
+			for j := 0; j < i; j++ {
+				if ref.Equal(ref.Normalise(t.Key, x.K[j]), ref.Normalise(t.Key, x.K[i])) {
+					return false
+				}
 			}
 		}
 	case ref.Struct:
@@ -870,6 +920,11 @@ func judgeEvo(c evoCase, excludeKnown bool) outcome {
 	ps := &projStats{dropped: map[string]int{}}
 	proj := projectStruct(nst, ost, v, 0, ps)
 	wantOld := ref.Normalise(otop, proj)
+	if !distinctUnderOld(otop, proj) {
+		// two map keys or set elements that differ only in fields old lacks are one
+		// key / element to old: what "keeps its value" means there is not defined
+		return outcome{status: "projection_merges_keys", ps: ps}
+	}
 	// the shape of the listed finding: a union whose set member old does not know, re-written by old with
 	// keep_unknown_fields.  Reading it is still judged; only the re-write (and the rest of the chain) is left out.
 	knownShape := excludeKnown && keep && ps.emptiedUnions > 0
